@@ -8,6 +8,8 @@ import HcipyVerif.Model.FftIndex
 import HcipyVerif.Model.FftSelect
 import HcipyVerif.Model.FftIndexN
 import HcipyVerif.Model.FftState
+import HcipyVerif.Model.FftMulti
+import HcipyVerif.Model.FftDecide
 import HcipyVerif.Model.Mft
 import HcipyVerif.Model.Czt
 import HcipyVerif.Model.ZoomN
@@ -57,6 +59,13 @@ Line-protocol front end of the C01 model.
   `shifts = 1`, as the code rebinds `internal_array`); exact rationals.
 * `corestate shifts N M Mo [buf…] j` — `coreState` with the forward kernel on the unit impulse
   at `j`, starting from the previous contents `buf`.
+* `multi [sh,N,M,Mo, sh,N,M,Mo, …] [obj,back,j, obj,back,j, …] g` — `multiImpulse` (`Model/FftMulti.lean`): a population
+  of live FFT objects (four numbers each) with per-object internal arrays, all initially filled with the garbage value
+  `g`, and an interleaved history of calls (three numbers each: object, 0 = forward / 1 = backward, impulse position);
+  answers the FFT core of every call (`runOwn`), calls separated by `|`.  `multipool …` — the same through `runPool` (the
+  defect class: arrays shared by padded size + skip-clearing flags), used to tell which histories discriminate the two.
+* `decide shift [s…]` — `shiftNeeded` / `shiftNeededOld` (`Model/FftDecide.lean`); `decide cutout [M…] [N…]` —
+  `cutoutNeeded` / `cutoutNeededOld`; answers the repaired and the old decision.
 * `mft fwd|bwd|sumfwd|sumbwd [x…] [y…] [u…] [v…] [w…] j` — `mftForward`/`mftBackward`
   (`Model/Mft.lean`, the two gemm calls) and the defining sums on the unit impulse at flat index `j`;
   `w` with one entry is the scalar-weights branch.  `mft1 fwd|bwd [x…] [u…] [w…] j` — one axis.
@@ -263,6 +272,19 @@ def zoomOp (sum : Bool) : List String → String
     | _, _, _, _, _, _, _, _, _, _ => "bad-op"
   | _ => "bad-op"
 
+def multiOp (pool : Bool) (cfgs calls g : String) : String :=
+    match parseNatList? cfgs, parseNatList? calls, parseRat? g with
+    | some cf, some cl, some g =>
+      if cf.length % 4 != 0 || cl.length % 3 != 0 || cf.length = 0 then "err value" else
+      let objs : List ObjCfg := (List.range (cf.length / 4)).map fun i =>
+        ⟨cf.getD (4 * i) 0 != 0, cf.getD (4 * i + 1) 0, cf.getD (4 * i + 2) 0, cf.getD (4 * i + 3) 0⟩
+      let cs : List (Nat × Bool × Nat) := (List.range (cl.length / 3)).map fun i =>
+        (cl.getD (3 * i) 0, cl.getD (3 * i + 1) 0 != 0, cl.getD (3 * i + 2) 0)
+      if objs.any (fun o => o.M = 0 || o.N > o.M || o.Mo > o.M || o.N = 0 || o.Mo = 0) then "err value"
+      else if cs.any (fun (o, b, j) => o ≥ objs.length || j ≥ (objs.getD o ⟨false, 1, 1, 1⟩).src b) then "err value"
+      else "ok " ++ "|".intercalate (((if pool then multiPoolImpulse else multiImpulse) objs cs g).map showPSums)
+    | _, _, _ => "bad-op"
+
 def step (st : St) : List String → St × String
   | ["impn", mode, dir, cfg, Ns, Ms, Mos, ds, zs, dTs, ss, ws, js] =>
     match parseNatList? Ns, parseNatList? Ms, parseNatList? Mos, parseRatList? ds, parseRatList? zs,
@@ -348,6 +370,18 @@ def step (st : St) : List String → St × String
       let a' : Nat → Rat := if sh then ifftshift M a else a
       (st, "ok " ++ showRatList ((List.range M).map a'))
     | _, _, _, _, _ => (st, "bad-op")
+  | ["multi", cfgs, calls, g] => (st, multiOp false cfgs calls g)
+  | ["multipool", cfgs, calls, g] => (st, multiOp true cfgs calls g)
+  | ["decide", "shift", ss] =>
+    match parseRatList? ss with
+    | some s => (st, s!"ok {showBool (shiftNeeded s)} {showBool (shiftNeededOld s)}")
+    | none => (st, "bad-op")
+  | ["decide", "cutout", Ms, Ns] =>
+    match parseNatList? Ms, parseNatList? Ns with
+    | some M, some N =>
+      if M.length != N.length then (st, "err value") else
+      (st, s!"ok {showBool (cutoutNeeded M N)} {showBool (cutoutNeededOld M N)}")
+    | _, _ => (st, "bad-op")
   | ["corestate", sh, N, M, Mo, bufs, j] =>
     match parseBool? sh, parseNat? N, parseNat? M, parseNat? Mo, parseRatList? bufs, parseNat? j with
     | some sh, some N, some M, some Mo, some buf, some j =>
